@@ -44,7 +44,8 @@ def run_grid_case(c, seed=3):
     second lifetime: restart with target `ext`. Returns list of problems [(sig, msg)]."""
     n, W = c["n"], c["W"]
     moves = ["sh"] + ["wf" if (i + n) % 2 else "sh" for i in range(n - 1)]
-    spec = simdrv.lattice_spec(n=n, moves=moves, workers=W, steps=c["steps"], seed=seed + 17 * n + W, maxlength=200)
+    spec = simdrv.lattice_spec(n=n, moves=moves, workers=W, steps=c["steps"], seed=seed + 17 * n + W, maxlength=200,
+                               screen=[0, 1, 3][(c["steps"] + c["k"] + c["ext"]) % 3])  # reporting interval: must not matter for what is on disk
     if c["mode"] == "kill":
         seg1 = {"steps": c["steps"], "policy": c["pol"], "policy_seed": seed, "kill_after": c["k"]}
         done1 = c["k"]
@@ -85,7 +86,13 @@ def run_grid_case(c, seed=3):
                 probs.append(("C17:restart-with-more-steps-refused", f"cstep {start2} -> {c['ext']}"))
             else:
                 check_finished(probs, r2, c["ext"], start2, "extended-run")
+                # what the restart found on disk: the step counter of the restart file = the moves completed before the stop / kill
+                if r2.get("cstep_start") is not None and r2.get("cstep_start") != start2:
+                    probs.append(("C17:restart-file-step-counter-differs-from-completed-moves", f"restart file said {r2.get('cstep_start')}, {start2} moves had completed (screen={spec['screen']})"))
             cfg = simdrv.read_restart(h["rundir"])
+            if cfg is None:
+                probs.append(("C17:no-readable-restart-file-after-the-run", f"screen={spec['screen']}"))
+                return probs, res
             if cfg["current"]["cstep"] != c["ext"]:
                 probs.append(("C17:cstep-in-restart-file", f"{cfg['current']['cstep']} != {c['ext']}"))
             if cfg["current"]["locked"]:
@@ -140,6 +147,8 @@ def unit_task(item):
     with open(os.path.join(item["dir"], f"unit{item['id']}"), "a") as fh:
         fh.write(f"{os.getpid()}\n")
     time.sleep(item["dur"])
+    if item["fail"] == "die":
+        os._exit(7)  # the worker process dies (segfault / OOM kill of the MD program's wrapper): the pool is broken from here on
     if item["fail"]:
         raise {"value": ValueError, "runtime": RuntimeError, "key": KeyError}[item["fail"]](f"unit {item['id']}")
     item["out"] = item["id"] * 7 + 1
@@ -158,7 +167,12 @@ def runner_cases(draw):
     lag = draw(st.lists(st.integers(0, 2), min_size=nunits, max_size=nunits))
     # mode "burst": everything is submitted at once (more units than workers wait in the runner's queue) and stop() is called
     # while work is outstanding; the results are then taken from the futures
-    return {"nw": nw, "units": units, "lag": lag, "mode": draw(st.sampled_from(["scheduler", "scheduler", "burst", "burst-consume-some"]))}
+    case = {"nw": nw, "units": units, "lag": lag, "mode": draw(st.sampled_from(["scheduler", "scheduler", "burst", "burst-consume-some"]))}
+    if nunits >= 2 and draw(st.integers(0, 5)) == 0:
+        # one unit kills its worker process: that unit and every later one must still be answered (with an exception), exactly once
+        case["units"][draw(st.integers(0, nunits - 2))]["fail"] = "die"
+        case["mode"] = "scheduler"
+    return case
 
 
 def _runner_child(c):
@@ -247,9 +261,23 @@ def _runner_child(c):
     ids = [g[0] for g in got]
     if len(set(ids)) != len(ids):
         probs.append(("C17:runner:future-delivered-twice", str(ids)))
+    broken = any(u["fail"] == "die" for u in c["units"])
     for u in c["units"]:
         path = os.path.join(d, f"unit{u['id']}")
         n = len(open(path).read().split()) if os.path.exists(path) else 0
+        if broken:
+            # once a worker process has died the pool is broken: units may not run any more, but each is answered exactly once,
+            # and an answer that claims success is the unit's own result
+            mine = [g for g in got if g[0] == u["id"]]
+            if len(mine) != 1:
+                probs.append(("C17:runner:result-not-delivered-exactly-once:after-a-worker-process-died", f"unit {u['id']}: {mine}"))
+            elif mine[0][1] == "ok" and (n != 1 or mine[0][2] != u["id"] or mine[0][3] != u["id"] * 7 + 1):
+                probs.append(("C17:runner:wrong-result-delivered", f"unit {u['id']}: {mine[0]} executed {n} times"))
+            elif u["fail"] == "die" and mine[0][1] != "exc":
+                probs.append(("C17:runner:dead-worker-reported-as-success", f"unit {u['id']}: {mine[0]}"))
+            if n > 1:
+                probs.append(("C17:runner:unit-not-executed-exactly-once", f"unit {u['id']} executed {n} times"))
+            continue
         if n != 1:
             probs.append(("C17:runner:unit-not-executed-exactly-once", f"unit {u['id']} executed {n} times"))
         mine = [g for g in got if g[0] == u["id"]]
